@@ -192,6 +192,10 @@ func (tst *tsTable) TakeFileSnapshot(dst string) (success bool, err error) {
 func (tst *tsTable) createMetadata(dst string, snapshot *snapshot) {
 	var partNames []string
 	for i := range snapshot.parts {
+		if snapshot.parts[i].mp != nil {
+			// Memory parts are not linked into the snapshot directory.
+			continue
+		}
 		partNames = append(partNames, partName(snapshot.parts[i].ID()))
 	}
 	data, err := json.Marshal(partNames)
